@@ -36,7 +36,7 @@ ASSUMPTIONS = [
     "suite (observation, outside the quantifier); captured output accumulates over the groups of a run (stdOutput_ is never reset)",
 ]
 RULE = ("scripted registries: 1-5 groups, pass / fail through every TestFailure constructor (file+line+message, message only, file+line only, FailFailure; several per test; from the body and from a plugin's post-test action) / ignored tests, printed "
-        "text, optional package and name filter; names, paths, messages and printed text over printable ASCII with & < > \" ' CR LF "
+        "text, optional package and name filter, repeated runs on one output object (-r2/-r3); names, paths, messages and printed text over printable ASCII with & < > \" ' CR LF "
         "frequent and some longer than 100 bytes; non-trivial = a file contains an encoded character, a failure or a skipped element; "
         "distinct = distinct op sequences")
 
@@ -46,6 +46,8 @@ signature = G.signature
 def gen_case(rng, n, malformed=False, extra_chars="", real_io=False):
     ops = G.gen_registry(rng, n, empty_groups=malformed or rng.random() < 0.05, repeat_groups=malformed and rng.random() < 0.5,
                          with_package=True, with_prints=True, specials=G.SPECIAL_XML + "|[]" if not extra_chars else G.SPECIAL_XML + extra_chars)
+    if not real_io and rng.random() < 0.2:
+        ops.insert(0, "repeat %d" % rng.choice([2, 2, 3]))      # -r<n>: every repetition writes every report again
     ops.append("run")
     if real_io:
         # real files in a temporary directory: the names must be distinct and short enough for the file system
@@ -103,6 +105,8 @@ def observe(r, rep):
         if name == b"cpputest_.xml":
             rep.count("observation.file_for_empty_or_fully_filtered_group")
     reg = G.read_registry(r.ops)
+    if reg["repeat"] > 1:
+        rep.count("branch.repeated_runs")
     if reg["package"]:
         rep.count("branch.package")
     if reg["filter"] is not None and any(not G.should_run(reg, t) for t in reg["tests"]):
@@ -173,19 +177,24 @@ def first_failure(t):
 
 def expat_judge(ops, files):
     reg = G.read_registry(ops)
-    runs = G.group_runs(reg["tests"])
+    one = G.group_runs(reg["tests"])
+    # n repetitions; the runner's "Test run i of n" line reaches this output without its numbers, before the first group
+    runs = []
+    for _ in range(reg["repeat"]):
+        for k, (g, ts) in enumerate(one):
+            runs.append((g, ts, b"Test run  of \n" if (k == 0 and reg["repeat"] > 1) else b""))
     if len(files) != len(runs):
         return "%d files for %d groups" % (len(files), len(runs))
     printed = b""
     enc = lambda s: s.encode("latin-1", "replace")
-    for (g, ts), (name, data) in zip(runs, files):
+    for (g, ts, pre), (name, data) in zip(runs, files):
         try:
             root, cases, sysout = expat_parse(data)
         except xml.parsers.expat.ExpatError as e:
             return "expat rejects file %r: %s  (%r)" % (name, e, data[:200])
         running = [t for t in ts if G.should_run(reg, t)]
         own = b"".join(printed_by(t) for t in running)
-        printed += own
+        printed += pre + own
         if not running:
             continue
         pkg = reg["package"]
